@@ -145,10 +145,40 @@ def view(root, nr, ids):
     return {'rels': rels, 'pkgok': pkgok, 'gens': gens}
 
 
-def do_op(root, ev, packages, counter, ids, form):
-    """Execute one operation through the public asset API. Returns (result class, written state ids)."""
+HANDLES = {}
+
+
+def handle(root, index):
+    """Long-lived registry handles (client objects that stay around between operations, as in a service or a notebook)."""
     from forml.io import asset
-    directory = fresh(root)
+    from forml.provider.registry.filesystem import posix
+    key = (root, index)
+    if key not in HANDLES:
+        directory = asset.Directory(posix.Registry(root))
+        HANDLES[key] = {'dir': directory, 'levels': {}}
+    return HANDLES[key]
+
+
+def do_op(root, ev, packages, counter, ids, form, held=None):
+    """Execute one operation through the public asset API. Returns (result class, written state ids).
+    held = index of a long-lived handle to go through (level objects are kept and re-used), None = fresh objects."""
+    from forml.io import asset
+    if held is None:
+        directory = fresh(root)
+        get_release = lambda v: directory.get(PROJECT).get(str(v))
+    else:
+        box = handle(root, held)
+        directory = box['dir']
+
+        def get_release(v):
+            if v not in box['levels']:
+                box['levels'][v] = directory.get(PROJECT).get(str(v))
+            release = box['levels'][v]
+            try:
+                list(release.list())      # a client looking at what is there before it acts
+            except Exception:  # pylint: disable=broad-except
+                pass
+            return release
     written = []
     if ev['op'] == 'publish':
         try:
@@ -156,7 +186,7 @@ def do_op(root, ev, packages, counter, ids, form):
         except asset.Level.Invalid:
             return 'rejected', written
         return 'ok', written
-    release = directory.get(PROJECT).get(str(ev['v']))
+    release = get_release(ev['v'])
     try:
         release.key
     except asset.Level.Invalid:      # the release does not exist (its publication was refused or crashed)
@@ -171,10 +201,15 @@ def do_op(root, ev, packages, counter, ids, form):
     tag = asset.Tag(training=asset.Tag.Training(datetime.datetime(2024, 1, 1) + datetime.timedelta(seconds=counter[1]), counter[1]),
                     states=sids)
     release.put(tag)
+    if held is not None:
+        try:
+            list(release.list())          # ... and looking at the result afterwards
+        except Exception:  # pylint: disable=broad-except
+            pass
     return 'ok', written
 
 
-def replay_history(hist, nr, packages, base, crash_event=None, crash_write=None, form=0):
+def replay_history(hist, nr, packages, base, crash_event=None, crash_write=None, form=0, handles=0):
     """Replay one history; the operation marked `crash` dies at the given event / write. Returns (trace, #events, #writes)."""
     root = tempfile.mkdtemp(prefix='reg-', dir=base)
     ids, counter, trace = Ids(), [0, 0], []
@@ -198,13 +233,16 @@ def replay_history(hist, nr, packages, base, crash_event=None, crash_write=None,
                     nev = len(events)
             else:
                 try:
-                    res, written = do_op(root, ev, packages, counter, ids, form)
+                    held = None if not handles else len(trace) % handles      # A, B, A, B ...
+                    res, written = do_op(root, ev, packages, counter, ids, form, held)
                 except Exception as exc:  # pylint: disable=broad-except
                     res = f'error-{type(exc).__name__}'
             trace.append({'op': ev['op'], 'v': ev['v'], 'r': ev['v'], 'n': ev['n'], 'res': res if res != 'crash-missed' else 'ok',
                           'written': written, 'view': view(root, nr, ids)})
     finally:
         shutil.rmtree(root, ignore_errors=True)
+        for key in [k for k in HANDLES if k[0] == root]:
+            del HANDLES[key]
     return trace, nev, nwr
 
 
@@ -247,6 +285,10 @@ def run(chk, rnd, tmp, base):
         dry, nev, nwr = replay_history(hist, nr, packages, base, None, None, form)
         traces.append(dry)
         meta.append({'hist': hist, 'crash': None, 'form': form})
+        for handles in (1, 2):        # the same history through one / two long-lived client handles
+            tr, _, _ = replay_history(hist, nr, packages, base, None, None, form, handles=handles)
+            traces.append(tr)
+            meta.append({'hist': hist, 'crash': None, 'form': form, 'handles': handles})
         for k in range(1, nev + 1):
             tr, _, _ = replay_history(hist, nr, packages, base, k, None, form)
             traces.append(tr)
@@ -276,7 +318,7 @@ def run(chk, rnd, tmp, base):
             ev = traces[i - 1][matched]
             chk.fail(f'C05 history {[(e["op"], e["v"], e["n"], e["crash"]) for e in m["hist"]]} crash={m["crash"]} package form={m["form"]}: '
                      f'after step {matched + 1} ({ev["op"]} -> {ev["res"]}) a fresh reader sees {json.dumps(ev["view"])[:400]} - neither '
-                     'the previous content nor the complete new item', {'hist': m['hist'], 'crash': m['crash'], 'form': m['form']})
+                     'the previous content nor the complete new item', {'hist': m['hist'], 'crash': m['crash'], 'form': m['form'], 'handles': m.get('handles', 0)})
         else:
             ok += 1
             crashes += 1 if m['crash'] else 0
@@ -298,7 +340,7 @@ def replay_cmd(chk, path):
     packages = Packages(base, nr)
     ce = rep['crash'][1] if rep['crash'] and rep['crash'][0] == 'event' else None
     cw = rep['crash'][1] if rep['crash'] and rep['crash'][0] == 'write' else None
-    tr, nev, nwr = replay_history(rep['hist'], nr, packages, base, ce, cw, rep['form'])
+    tr, nev, nwr = replay_history(rep['hist'], nr, packages, base, ce, cw, rep['form'], handles=rep.get('handles', 0))
     for e in tr:
         print(e['op'], e['v'], e['n'], e['res'], json.dumps(e['view']))
     shutil.rmtree(base, ignore_errors=True)
